@@ -276,10 +276,11 @@ def run(ctx):
   cases = r.json
   step = 1 if big else 3
   replayed = 0
-  for ci in range(0, len(cases), step):
+  todo = [ci for ci in range(0, len(cases), step) if not (big and len(cases[ci]['hist']) == 3 and ci % 7)]
+  if len(todo) > 6000:      # (depth 3 emits > 10^5 histories; about 20 replays per second)
+    todo = sorted(rng.sample(todo, 6000))
+  for ci in todo:
     c = cases[ci]
-    if big and len(c['hist']) == 3 and ci % 7:
-      continue
     ops = [dict(h) for h in c['hist']]
     ev = run_history(w4, rng, ops)
     replayed += 1
